@@ -12,7 +12,7 @@ theorem parseImage_empty {P : Params} {b : Block} {nb nh seed : Nat} (h : parseI
   all_goals assumption
 
 theorem parseImage_full {P : Params} {b : Block} {cap nh seed nbs nl : Nat} (h : parseImage P b = .full cap nh seed nbs nl) :
-    (getField b.val 24 8 &&& P.emptyMask != 0) = false ∧ cap = (nl * 64) % 2 ^ 32 ∧ cap ≠ 0 ∧ nh = getField b.val 32 16 ∧
+    (getField b.val 24 8 &&& P.emptyMask != 0) = false ∧ cap = capOf P nl ∧ cap ≠ 0 ∧ nh = getField b.val 32 16 ∧
       seed = getField b.val 64 64 ∧ nl = getField b.val 128 32 ∧ nbs = getField b.val 192 64 ∧ 32 ≤ b.len := by
   simp only [parseImage] at h
   repeat' split at h
@@ -21,6 +21,12 @@ theorem parseImage_full {P : Params} {b : Block} {cap nh seed nbs nl : Nat} (h :
   · simp_all
   · simp_all
   · omega
+
+theorem capOf_mod64 (P : Params) (nl : Nat) : capOf P nl % 64 = 0 := by
+  unfold capOf; split <;> omega
+
+theorem capOf_le_nbytes (P : Params) (nl : Nat) : capOf P nl ≤ 8 * nbytesOf P nl := by
+  unfold capOf nbytesOf; split <;> omega
 
 theorem image_bit (P : Params) (w : World) (f : Filter) (hne : f.isEmpty = false) (j : Nat) (hj : j < f.capBits) :
     (image P w f).val.testBit (256 + j) = (w.val f).testBit (f.off P + j) := by
@@ -99,12 +105,15 @@ theorem inv_wrap (hP : P.Layout) (w : World) (g : Ghost ι) (hi : Inv P hf w g) 
     | full cap nh seed nbs nl =>
       obtain ⟨hflag, hcapeq, hcap0, -, -, -, -, hlen⟩ := parseImage_full hp
       have hcap : 0 < cap := Nat.pos_of_ne_zero hcap0
-      have hcap2 : 0 < cap ∧ cap % 64 = 0 := ⟨hcap, by rw [hcapeq]; omega⟩
+      have hcap2 : 0 < cap ∧ cap % 64 = 0 := ⟨hcap, by rw [hcapeq]; exact capOf_mod64 P nl⟩
+      by_cases hst : (P.strict && decide (b.len - 32 < nbytesOf P nl)) = true
+      · simp only [opWrap, gstep, hm, hp, hst, if_true]; cases w.filters v <;> exact hi
+      have hst' : (P.strict && decide (b.len - 32 < nbytesOf P nl)) = false := by simpa using hst
       cases k with
       | deser =>
-        by_cases hl : b.len - 32 < (nl * 8) % 2 ^ 32
-        · simp only [opWrap, gstep, hm, hp, hl, if_true]; cases w.filters v <;> exact hi
-        · simp only [opWrap, gstep, hm, hp, hl, if_false]
+        by_cases hl : b.len - 32 < nbytesOf P nl
+        · simp only [opWrap, gstep, hm, hp, hst', Bool.false_eq_true, if_false]; simp only [hl, if_true]; cases w.filters v <;> exact hi
+        · simp only [opWrap, gstep, hm, hp, hst', Bool.false_eq_true, if_false]; simp only [hl, if_false]
           simp only [setFilter_filters_same, deserFilter, hbv, hflag, Bool.false_eq_true, if_false]
           refine ⟨cover_set hi.1 _ _ _ (fun key hk => keyVal_setFilter_ne_own _ _ _ _ hk) ?_, capPos_setFilter hi.2 _ _ hcap2⟩
           rw [keyVal_setFilter_own]
@@ -120,21 +129,21 @@ theorem inv_wrap (hP : P.Layout) (w : World) (g : Ghost ι) (hi : Inv P hf w g) 
           intro j hj hb
           simp only [keyOff, Nat.zero_add]
           rw [testBit_getField]
-          have h8 : cap ≤ 8 * ((nl * 8) % 2 ^ 32) := by rw [hcapeq]; omega
+          have h8 : cap ≤ 8 * nbytesOf P nl := by rw [hcapeq]; exact capOf_le_nbytes P nl
           have hj' : j < cap := hj
-          have : j < 8 * ((nl * 8) % 2 ^ 32) := by omega
+          have : j < 8 * nbytesOf P nl := by omega
           rw [hbv, hP.2] at hb
           simp [this, hb]
       | wrap =>
         by_cases hl : b.len < 32 + cap / 8
-        · simp only [opWrap, gstep, hm, hp, hl, if_true]; cases w.filters v <;> exact hi
-        · simp only [opWrap, gstep, hm, hp, hl, if_false]
+        · simp only [opWrap, gstep, hm, hp, hst', Bool.false_eq_true, if_false]; simp only [hl, if_true]; cases w.filters v <;> exact hi
+        · simp only [opWrap, gstep, hm, hp, hst', Bool.false_eq_true, if_false]; simp only [hl, if_false]
           simp only [setFilter_filters_same, wrapFilter]
           exact ⟨cover_set hi.1 _ _ _ (fun key hk => keyVal_setFilter_ne_own _ _ _ _ hk) (Covers.nil _ _ _ _), capPos_setFilter hi.2 _ _ hcap2⟩
       | wwrap =>
         by_cases hl : b.len < 32 + cap / 8
-        · simp only [opWrap, gstep, hm, hp, hl, if_true]; cases w.filters v <;> exact hi
-        · simp only [opWrap, gstep, hm, hp, hl, if_false]
+        · simp only [opWrap, gstep, hm, hp, hst', Bool.false_eq_true, if_false]; simp only [hl, if_true]; cases w.filters v <;> exact hi
+        · simp only [opWrap, gstep, hm, hp, hst', Bool.false_eq_true, if_false]; simp only [hl, if_false]
           simp only [setFilter_filters_same, wrapFilter]
           exact ⟨cover_set hi.1 _ _ _ (fun key hk => keyVal_setFilter_ne_own _ _ _ _ hk) (Covers.nil _ _ _ _), capPos_setFilter hi.2 _ _ hcap2⟩
 
